@@ -46,6 +46,9 @@ type fnSpec struct {
 	errChan      bool // errors are reported by sending on errCh (recorded as effects), not returned
 	loop         bool // translate one iteration of the receive loop inside the function (see translate)
 	uses         map[string]bool // translated functions this one calls (filled while translating)
+	joins        bool              // translate the code after a branching statement once, as a local join point (see tryJoin)
+	selfRec      bool              // the function calls itself: the generated definition takes the function to call as its first argument (`self`)
+	extConsts    map[string]string // constants of package constants the function names -> their value (checked against constants/const.go)
 }
 
 func (f *fnSpec) isState(r string) bool {
@@ -516,4 +519,79 @@ var clientSpecs2 = []fnSpec{
 	},
 }
 
-func init() { specs = append(specs, clientSpecs...); specs = append(specs, clientSpecs2...) }
+// ---- the RIB's orchestration of an ADD / REPLACE (rib/rib.go)
+
+var (
+	ribPend  = stateField{goExpr: "r.pendingEntries", lean: "pending", kd: kind{k: "map", s: "pendingEntry", t: []kind{kNat}}}
+	ribOks   = stateField{goExpr: "*oks", lean: "oks", kd: kind{k: "list", s: "RibOpResult", elemNN: true}}
+	ribFails = stateField{goExpr: "*fails", lean: "fails", kd: kind{k: "list", s: "RibOpResult", elemNN: true}}
+	ribStack = stateField{goExpr: "installStack", lean: "installStack", kd: kind{k: "set"}}
+)
+
+var ribSpecs = []fnSpec{
+	{
+		file: "rib/rib.go", goName: "getPending", recvType: "*RIB", callAs: "r.getPending", leanName: "getPending",
+		params: []param{},
+		goRets: "[]*pendingEntry", rets: []string{"list:pendingEntry"},
+		state:  []stateField{ribPend},
+	},
+	{
+		file: "rib/rib.go", goName: "addPending", recvType: "*RIB", callAs: "r.addPending", leanName: "addPending",
+		params: []param{
+			{goName: "id", goType: "uint64", lean: "id", kd: kNat},
+			{goName: "e", goType: "*pendingEntry", lean: "e", kd: kPtr("pendingEntry"), nonnil: true},
+		},
+		goRets: "", rets: []string{},
+		state:  []stateField{ribPend},
+	},
+	{
+		file: "rib/rib.go", goName: "rmPending", recvType: "*RIB", callAs: "r.rmPending", leanName: "rmPending",
+		params: []param{{goName: "id", goType: "uint64", lean: "id", kd: kNat}},
+		goRets: "", rets: []string{},
+		state:  []stateField{ribPend},
+	},
+	{
+		file: "rib/rib.go", goName: "addEntryInternal", recvType: "*RIB", callAs: "r.addEntryInternal", leanName: "addEntryInternal", selfRec: true, joins: true,
+		params: []param{
+			{goName: "ni", goType: "string", lean: "ni", kd: kStr},
+			{goName: "op", goType: "*spb.AFTOperation", lean: "op", kd: kPtr("AFTOperationC"), nonnil: true},
+			{goName: "oks", goType: "*[]*OpResult", lean: "oksP", kd: kStr, skip: true},
+			{goName: "fails", goType: "*[]*OpResult", lean: "failsP", kd: kStr, skip: true},
+			{goName: "installStack", goType: "map[uint64]bool", lean: "stackP", kd: kStr, skip: true},
+		},
+		goRets: "error", rets: []string{"err"},
+		oracleParams: []param{
+			{goName: "§niKnown", lean: "niKnown", kd: kind{k: "fun", t: []kind{kBool, kStr}}},
+			{goName: "§niValid", lean: "niValid", kd: kind{k: "fun", t: []kind{kBool, kStr}}},
+			{goName: "§done", lean: "done", kd: kBool},
+			{goName: "§orig", lean: "orig", kd: kPtr("Unit")},
+			{goName: "§addErr", lean: "addErr", kd: kind{k: "status"}},
+			{goName: "§hookErr", lean: "hookErr", kd: kind{k: "status"}},
+			{goName: "§noFwd", lean: "noFwd", kd: kBool},
+		},
+		// a RIBHolder is represented by the name of its network instance
+		oracles: map[string]oracle{
+			"r.NetworkInstanceRIB":     {results: []string{"$0", "§niKnown@0"}},
+			"niR.IsValid":              {results: []string{"§niValid@recv"}},
+			"niR.AddIPv4":              {results: []string{"§done", "§orig", "§addErr"}, effect: "addIPv4", args: []int{-1, 0, 1}},
+			"niR.AddIPv6":              {results: []string{"§done", "§orig", "§addErr"}, effect: "addIPv6", args: []int{-1, 0, 1}},
+			"niR.AddMPLS":              {results: []string{"§done", "§orig", "§addErr"}, effect: "addMPLS", args: []int{-1, 0, 1}},
+			"niR.AddNextHopGroup":      {results: []string{"§done", "§orig", "§addErr"}, effect: "addNHG", args: []int{-1, 0, 1}},
+			"niR.AddNextHop":           {results: []string{"§done", "§orig", "§addErr"}, effect: "addNH", args: []int{-1, 0, 1}},
+			"handleReferences":         {results: []string{}, effect: "handleReferences", args: []int{1, 2, 3}},
+			"r.handleNHGReferences":    {results: []string{}, effect: "handleNHGReferences", args: []int{0, 1, 2}},
+			"r.callResolvedEntryHook":  {results: []string{"§hookErr"}, effect: "resolvedHook"},
+		},
+		subst:     map[string]string{"r.disableForwardReferences": "§noFwd"},
+		state:     []stateField{ribOks, ribFails, ribStack, ribPend},
+		effects:   true,
+		typeMap:   map[string]string{"OpResult": "RibOpResult"},
+		extConsts: map[string]string{"constants.Add": "1", "constants.IPv4": "2", "constants.MPLS": "5", "constants.IPv6": "6"},
+	},
+}
+
+func init() {
+	specs = append(specs, clientSpecs...)
+	specs = append(specs, clientSpecs2...)
+	specs = append(specs, ribSpecs...)
+}
